@@ -200,7 +200,10 @@ def network(rng, n, typ, dense=True):
         return inputs.rand_graph(rng, n, p, und=True, wmax=3)
     if typ == "dir":
         return inputs.rand_graph(rng, n, p, und=False, wmax=3)
-    return inputs.rand_graph(rng, n, p, und=True, wmax=3, signed=True)
+    # the signed routines are documented for undirected networks; what they compute (row sums per
+    # module) is defined for any matrix and must not depend on the label names there either: one
+    # signed network in four is directed
+    return inputs.rand_graph(rng, n, p, und=rng.random() >= 0.25, wmax=3, signed=True)
 
 
 def structured_network(rng, typ, nmin=6, nmax=10):
